@@ -22,10 +22,30 @@ from xsim.probe import SIM
 DT = torch.float64
 
 METHODS = ["f_root", "f_equil", "f_min", "f_ode", "f_ode_tuple", "f_quad", "f_mc", "logp",
-           "f_jac", "f_hess", "g_step", "f_reent"]
+           "f_jac", "f_hess", "g_step", "f_reent", "f_j17", "f_h17"]
 
 
 # ------------------------------------------------------------- the mathematics
+def j17_ref(W, b, x, oshape, c, k, s):
+    """plain-torch function of everything it depends on: k outputs (reshaped to oshape) of the
+    numel(x) inputs; smooth, O(1), well conditioned when k == numel(x)"""
+    xv = x.reshape(-1)
+    z = W[:k, :xv.shape[0]] @ xv
+    y = torch.tanh(z) * s + b[:k] * (xv * c).sum() * 0.3 + 1.5 * xv[:k] + 0.1 * xv[0] ** 2
+    return y.reshape(oshape)
+
+
+def h17_ref(W, b, x, oshape, c, k, s):
+    """scalar function with a positive definite Hessian in x"""
+    xv = x.reshape(-1)
+    z = W[:k, :xv.shape[0]] @ xv
+    bb = b[:xv.shape[0]]
+    # every tensor argument enters non-linearly, so that the Hessian w.r.t. each of them exists as a graph
+    val = (torch.tanh(z) ** 2).sum() * (s * s) * 0.5 + (bb * bb * xv * xv * c * c).sum() * 0.2 + \
+        1.5 * (xv * xv).sum() + 0.1 * xv.sum() ** 3
+    return val.reshape(oshape)
+
+
 class Maths(object):
     """mixin: the functions, written against self._W() and self._b()"""
     reentrant = False
@@ -80,6 +100,15 @@ class Maths(object):
     def f_hess(self, y, s):
         SIM.enter("f_hess", self)
         return (torch.tanh(self._W() @ y) ** 2).sum() + (self._b() * y * y).sum() * s
+
+    def f_j17(self, x, oshape, c, k, s):
+        # tensor arguments of several shapes, non-tensor arguments in between (C17)
+        SIM.enter("f_j17", self)
+        return j17_ref(self._W(), self._b(), x, oshape, c, k, s)
+
+    def f_h17(self, x, oshape, c, k, s):
+        SIM.enter("f_h17", self)
+        return h17_ref(self._W(), self._b(), x, oshape, c, k, s)
 
     def f_reent(self, y, s):
         # a user function that itself calls another functional on another method
